@@ -9,6 +9,8 @@
 //         lit   literal parsing
 //         conc  (C08) DAG under an abstract stimulus and sampled concretisations of its undefined bits
 //         concw (C08) like conc with wide operands
+//         seq   (C08) DAG with registers, several clock cycles, abstract stimulus sequence vs concretisations (also of the
+//               undefined initial register contents); <stimuliPerCase> = number of runs
 #include <gatery/pch.h>
 #include "simhelp.h"
 #include "common.h"
@@ -22,6 +24,7 @@
 #include <gatery/hlim/coreNodes/Node_Rewire.h>
 #include <gatery/hlim/coreNodes/Node_Shift.h>
 #include <gatery/hlim/coreNodes/Node_Signal.h>
+#include <gatery/hlim/coreNodes/Node_Register.h>
 #include <gatery/frontend/PriorityConditional.h>
 #include <iostream>
 #include <map>
@@ -622,12 +625,19 @@ struct Net {
 	std::vector<hlim::BaseNode*> order;
 	std::map<hlim::BaseNode*, int> index;
 
+	std::vector<hlim::Node_Register*> regs;
 	void visit(hlim::BaseNode *n) {
 		if (!n || index.count(n)) return;
 		index[n] = -1; // in progress (combinational loops do not occur in these designs)
-		for (size_t i = 0; i < n->getNumInputPorts(); i++) visit(n->getDriver(i).node);
+		// a register output is a source of the combinational order; its input cones are visited afterwards (visitRegInputs)
+		if (auto *r = dynamic_cast<hlim::Node_Register*>(n)) regs.push_back(r);
+		else for (size_t i = 0; i < n->getNumInputPorts(); i++) visit(n->getDriver(i).node);
 		index[n] = (int)order.size();
 		order.push_back(n);
+	}
+	void visitRegInputs() {
+		for (size_t k = 0; k < regs.size(); k++) // regs may grow while visiting
+			for (size_t i = 0; i < regs[k]->getNumInputPorts(); i++) visit(regs[k]->getDriver(i).node);
 	}
 
 	static const char *logicName(hlim::Node_Logic::Op op) {
@@ -684,6 +694,7 @@ struct Net {
 			else if (dynamic_cast<hlim::Node_Multiplexer*>(n)) kind << "mux";
 			else if (dynamic_cast<hlim::Node_PriorityConditional*>(n)) kind << "prio";
 			else if (auto *c = dynamic_cast<hlim::Node_Constant*>(n)) kind << "const " << vh::bitsToString(c->getValue());
+			else if (dynamic_cast<hlim::Node_Register*>(n)) kind << "reg";
 			else { kind << "other " << n->getTypeName(); ok = false; }
 			o << w << ' ' << (isBool ? 'b' : 'v') << ' ';
 			if (n->getNumInputPorts() == 0) o << '-';
@@ -821,6 +832,124 @@ static void runCase(uint64_t caseSeed, size_t id, const std::string &mode, size_
 	o << "end\n";
 }
 
+// C08, sequential: an expression DAG with registers (with / without reset value and enable, feedback allowed) is run for a few clock
+// cycles under an abstract stimulus sequence and under concretisations of it (undefined stimulus bits and undefined initial register
+// contents replaced by 0/1); every node value of every cycle is printed.
+static void runSeq(uint64_t caseSeed, size_t id, size_t nruns, std::ostream &o) {
+	Rng rng(caseSeed);
+	o << "case " << id << " seq " << caseSeed << '\n';
+	DesignScope design;
+	Clock clk({.absoluteFrequency = 100'000'000});
+	ClockScope clkScope(clk);
+	Builder b(rng, o);
+	b.wide = false; b.beyond = false;
+	size_t nregs = rng.range(1, 4);
+	std::vector<UInt> q;
+	std::vector<int> qIdx;
+	q.reserve(nregs);
+	for (size_t i = 0; i < nregs; i++) {
+		size_t w = rng.range(1, 8);
+		q.emplace_back(BitWidth(w));
+		int idx = b.push(q[i], 'u', 0);
+		qIdx.push_back(idx);
+		o << "v " << idx << " regq " << i << ' ' << w << " -> u " << w << " n\n";
+	}
+	size_t nops = rng.range(4, 20);
+	for (size_t i = 0; i < nops && !b.failed; i++) b.genOp(true, false);
+	std::vector<hlim::Node_Register*> regNodes;
+	for (size_t i = 0; i < nregs && !b.failed; i++) {
+		size_t w = q[i].size();
+		int d = b.operand('u', true, w);
+		auto *reg = DesignScope::createNode<hlim::Node_Register>();
+		reg->setClock(clk.getClk());
+		reg->connectInput(hlim::Node_Register::DATA, b.V(d).port);
+		std::string rst = "-";
+		int en = -1;
+		if (rng.chance(2, 3)) {
+			rst = b.undefBits(b.genBits(w), rng.chance(1, 5) ? 1 : 0);
+			auto *c = DesignScope::createNode<hlim::Node_Constant>(vh::bitsFromString(rst), hlim::ConnectionType::BITVEC);
+			reg->connectInput(hlim::Node_Register::RESET_VALUE, {.node = c, .port = 0});
+		}
+		if (rng.chance(1, 2)) {
+			en = b.operand('b', true);
+			reg->connectInput(hlim::Node_Register::ENABLE, b.V(en).port);
+		}
+		q[i] = UInt(SignalReadPort(reg));
+		regNodes.push_back(reg);
+		o << "reg " << i << " q=a" << qIdx[i] << " data=a" << d << " rst=" << rst << " en=" << (en < 0 ? std::string("-") : "a" + std::to_string(en)) << '\n';
+	}
+	if (b.failed || b.vals.empty()) { o << "end\n"; return; }
+
+	Net net;
+	for (auto &v : b.vals) net.visit(v->port.node);
+	for (auto *r : regNodes) net.visit(r);
+	net.visitRegInputs();
+	std::map<hlim::Node_Pin*, int> pinIdx;
+	std::vector<int> pins;
+	for (size_t i = 0; i < b.vals.size(); i++) if (b.vals[i]->pin) { pinIdx[b.vals[i]->pin] = (int)i; pins.push_back((int)i); }
+	bool known = net.dump(o, pinIdx);
+	o << "xo";
+	for (auto &v : b.vals) o << ' ' << (v->port.node ? net.index[v->port.node] : -1);
+	o << '\n';
+	if (!known) { o << "unmodelled\nend\n"; return; }
+	for (size_t i = 0; i < net.order.size(); i++)
+		if (auto *r = dynamic_cast<hlim::Node_Rewire*>(net.order[i]))
+			for (const auto &rg : r->getOp().ranges)
+				if (rg.source == hlim::Node_Rewire::OutputRange::INPUT && rg.subwidth > 0) {
+					auto d = r->getDriver(rg.inputIdx);
+					if (!d.node) continue;
+					size_t wi = hlim::getOutputWidth(d);
+					if (rg.inputOffset > wi || rg.subwidth > wi - rg.inputOffset) { o << "unsafe " << i << " rewire-range-outside-input\nend\n"; return; }
+				}
+
+	try {
+		const size_t T = 6;
+		std::vector<std::vector<std::string>> absStim(T);
+		for (size_t t = 0; t < T; t++)
+			for (int p : pins) {
+				auto &v = *b.vals[p];
+				int uk = rng.chance(1, 3) ? 0 : (int)rng.range(1, 2);
+				absStim[t].push_back(b.undefBits(b.genBits(v.w), uk));
+			}
+		const hlim::ClockRational period = hlim::ClockRational(1) / clk.absoluteFrequency();
+		for (size_t r = 0; r < nruns; r++) {
+			sim::ReferenceSimulator sim(false);
+			sim.compileProgram(design.getCircuit());
+			sim.powerOn();
+			bool full = r % 3 != 0;
+			if (r == 0) o << "stim 0\n"; else o << "stimc " << r << (full ? " full" : " part") << '\n';
+			if (r > 0) {
+				// undefined initial register contents are part of what a concretisation fixes
+				for (auto *reg : regNodes) {
+					std::string cur = vh::bitsToString(sim.getValueOfOutput({.node = reg, .port = 0}));
+					std::string c = concretise(rng, cur, full);
+					if (c != cur) sim.simProcOverrideRegisterOutput(reg, vh::bitsFromString(c));
+				}
+			}
+			for (size_t t = 0; t < T; t++) {
+				o << "cyc " << t << '\n';
+				for (size_t k = 0; k < pins.size(); k++) {
+					auto &v = *b.vals[pins[k]];
+					std::string val = r == 0 ? absStim[t][k] : concretise(rng, absStim[t][k], full);
+					if (v.w) sim.simProcSetInputPin(v.pin, sim::convertToExtended(vh::bitsFromString(val)));
+					o << "pv " << pins[k] << ' ' << val << '\n';
+				}
+				sim.reevaluate();
+				o << "nv";
+				for (auto *n : net.order) o << ' ' << (n->getNumOutputPorts() ? vh::bitsToString(sim.getValueOfOutput({.node = n, .port = 0})) : std::string("-"));
+				o << '\n';
+				o << "xv";
+				for (auto &v : b.vals) o << ' ' << vh::bitsToString(sim.getValueOfOutput(v->port));
+				o << '\n';
+				sim.advance(period);
+			}
+		}
+	} catch (const std::exception &e) {
+		o << "simerr " << e.what() << '\n';
+	}
+	o << "end\n";
+}
+
 // literal parsing: "lit <string>" -> bits or e
 static void runLit(uint64_t caseSeed, size_t id, std::ostream &o) {
 	Rng rng(caseSeed);
@@ -867,7 +996,7 @@ static void runLit(uint64_t caseSeed, size_t id, std::ostream &o) {
 #include <ext/stdio_filebuf.h>
 
 static void runOne(uint64_t cs, size_t i, const std::string &mode, size_t nstim, std::ostream &o) {
-	if (mode == "lit") runLit(cs, i, o); else runCase(cs, i, mode, nstim, o);
+	if (mode == "lit") runLit(cs, i, o); else if (mode == "seq") runSeq(cs, i, nstim, o); else runCase(cs, i, mode, nstim, o);
 }
 
 static std::string runIsolated(uint64_t cs, size_t i, const std::string &mode, size_t nstim, bool streaming, int &status) {
@@ -911,7 +1040,7 @@ int main(int argc, char **argv) {
 	size_t nstim = (size_t)vh::argU64(argc, argv, 4, mode == "conc" || mode == "concw" ? 9 : 8);
 	std::ios::sync_with_stdio(false);
 	std::cout << "# prop=C03/C08 seed=" << seed << " mode=" << mode << '\n';
-	uint64_t modeSalt = mode == "op" ? 11 : mode == "dag" ? 23 : mode == "dags" ? 29 : mode == "const" ? 37 : mode == "lit" ? 41 : mode == "conc" ? 53 : 67;
+	uint64_t modeSalt = mode == "op" ? 11 : mode == "dag" ? 23 : mode == "dags" ? 29 : mode == "const" ? 37 : mode == "lit" ? 41 : mode == "conc" ? 53 : mode == "seq" ? 71 : 67;
 	// splitmix64 advances its state by a constant: seeding with seed*constant would make consecutive seeds shifted copies of
 	// each other, so the master state is the *output* of a generator seeded with (seed, mode)
 	Rng master(Rng(seed ^ (modeSalt << 40)).next());
